@@ -6,6 +6,9 @@
 (* All integer.  A *site* is <<shank, row, col>> in the IBL convention of   *)
 (* neuropixel.py.  A recording's site table is a sequence of sites in      *)
 (* on-disk channel order (entry k = channel k, 0-based k = position - 1).  *)
+(* A site may carry a fourth component, the draw flag SpikeGLX writes for  *)
+(* it (0 for reference / disabled sites, 1 otherwise; absent = 1): it is    *)
+(* data that travels with the site, not part of its identity.              *)
 (*                                                                         *)
 (* Implementation layer: one operator per statement group of the code      *)
 (*   MapChannels  = _map_channels_from_meta  (what is parsed from the text) *)
@@ -39,6 +42,10 @@ OnGrid(g, s) ==
     /\ s[3] \in 0..(Grid(g).ncol - 1)
     /\ g = "NP1" => s[3] % 2 = s[2] % 2
 
+\* identity of a site / its draw flag (<<shank, row, col>> or <<shank, row, col, flag>>)
+Site3(s) == <<s[1], s[2], s[3]>>
+FlagOf(s) == IF Len(s) >= 4 THEN s[4] ELSE 1
+
 RC2XY(g, row, col) == <<Grid(g).X0 + Grid(g).DX * col, Grid(g).Y0 + Grid(g).DY * row>>
 \* the code divides in floating point; on the grid the quotient is exact (XYExact)
 XY2RC(g, x, y) == <<(y - Grid(g).Y0) \div Grid(g).DY, (x - Grid(g).X0) \div Grid(g).DX>>
@@ -48,12 +55,12 @@ XYExact(g, x, y) == (y - Grid(g).Y0) % Grid(g).DY = 0 /\ (x - Grid(g).X0) % Grid
 (* the two metadata encodings of a site (what SpikeGLX writes)                                 *)
 \* snsShankMap (shank:col:row:flag) -- NP1 numbers the two sites of a row right to left
 ShankMapEntry(g, s) ==
-    [shank |-> s[1], col |-> IF g = "NP1" THEN (2 + (s[2] % 2) - s[3]) \div 2 ELSE s[3], row |-> s[2], flag |-> 1]
+    [shank |-> s[1], col |-> IF g = "NP1" THEN (2 + (s[2] % 2) - s[3]) \div 2 ELSE s[3], row |-> s[2], flag |-> FlagOf(s)]
 \* snsGeomMap (shank:x:y:flag) -- x mirrored on NP1, y measured from the first site (no tip offset)
 GeomMapEntry(g, s) ==
     [shank |-> s[1],
      x |-> IF g = "NP1" THEN 70 - (Grid(g).X0 + Grid(g).DX * s[3]) ELSE Grid(g).X0 + Grid(g).DX * s[3],
-     y |-> Grid(g).DY * s[2], flag |-> 1]
+     y |-> Grid(g).DY * s[2], flag |-> FlagOf(s)]
 Encodings(g) == IF g = "NPU" THEN {"shank"} ELSE {"shank", "geom"}
 Encode(g, e, s) == IF e = "shank" THEN ShankMapEntry(g, s) ELSE GeomMapEntry(g, s)
 
@@ -143,7 +150,7 @@ Kept(S, split) == IF split = -1 THEN [i \in 1..Len(S) |-> i]
 SitesOnceP(S, split, H) ==
     LET kept == Kept(S, split) IN
     /\ Len(H) = Len(kept)
-    /\ {SiteOf(H[i]) : i \in 1..Len(H)} = {S[kept[k]] : k \in 1..Len(kept)}
+    /\ {SiteOf(H[i]) : i \in 1..Len(H)} = {Site3(S[kept[k]]) : k \in 1..Len(kept)}
     /\ Range([i \in 1..Len(H) |-> H[i].ind]) = 0..(Len(H) - 1)
 
 \* entry i describes the site stored at on-disk column H[i].ind of its own file, completely: row/col and
@@ -154,7 +161,7 @@ DescribesP(g, S, split, H) ==
     \A i \in 1..Len(H) :
         /\ H[i].ind \in 0..(Len(kept) - 1)
         /\ LET orig == kept[H[i].ind + 1] - 1        \* original channel number, 0-based
-               s == S[orig + 1]
+               s == Site3(S[orig + 1])
            IN /\ SiteOf(H[i]) = s
               /\ <<H[i].x, H[i].y>> = RC2XY(g, s[2], s[3])
               /\ XYExact(g, H[i].x, H[i].y) /\ XY2RC(g, H[i].x, H[i].y) = <<H[i].row, H[i].col>>
